@@ -30,7 +30,15 @@
       PDone     status = FREE_READY2 published; the record waits to be reaped
       PGone     the record has been released (by join/detach, or by the callback if detached)
     A worker with [w_cur = None] executes on a stack that is not in the ledger (its
-    scheduler context, or the process stack of the main thread). *)
+    scheduler context, or the process stack of the main thread).
+
+    Epochs (myth_fini followed by myth_init_ex): the environments of the old workers are freed
+    together with their free lists (myth_fini_body: myth_free_with_size(g_envs); the per-class
+    list arrays are freed by myth_flmalloc_fini_worker) and myth_setup_worker starts every
+    worker of the new run with EMPTY lists.  In the model the workers of the new epoch get
+    fresh ids [base ..]: [EEpoch nw] appends nw idle workers and sets [base] to the old number
+    of workers; a worker id below [base] never acts again, so nothing is ever popped from (or
+    pushed to) a list of an earlier epoch - those entries stay where they are, dropped. *)
 From Coq Require Import List Bool Arith.
 Import ListNotations.
 
@@ -50,7 +58,8 @@ Record state := mkSt {
   fstk : list ((nat * nat) * nat);     (* ((worker, class), stack id), newest first *)
   fdesc : list (nat * nat);            (* (worker, record id), newest first *)
   nstk : nat;
-  ndesc : nat }.
+  ndesc : nat;
+  base : nat }.                        (* worker ids below [base] belong to earlier epochs: dead *)
 
 Inductive ev :=
 | EAllocDesc (det : bool)      (* get_new_myth_thread_struct_desc; det: attr->detachstate *)
@@ -64,7 +73,8 @@ Inductive ev :=
 | EPublish                     (* status = FREE_READY2; unlock *)
 | ERelDescFin                  (* detached: unlock; free_myth_thread_struct_desc in the callback *)
 | ESetDetached (t : nat)       (* myth_detach_body on an unfinished thread, under t->lock *)
-| EReap (t : nat).             (* myth_join_1 / myth_detach_body after FREE_READY2 *)
+| EReap (t : nat)              (* myth_join_1 / myth_detach_body after FREE_READY2 *)
+| EEpoch (nw : nat).           (* myth_fini; myth_init_ex with nw workers *)
 
 Definition owns_stack (p : phase) : bool :=
   match p with PSaved | PRun _ | PFin _ | PAway _ => true | _ => false end.
@@ -124,20 +134,26 @@ Definition cur_running (st : state) (w : nat) (k : worker) : bool :=
   match w_cur k with None => true | Some p => ph_is st p (PRun w) end.
 
 Definition with_ths (st : state) (l : list thread) (ws : list worker) : state :=
-  mkSt l ws (fstk st) (fdesc st) (nstk st) (ndesc st).
+  mkSt l ws (fstk st) (fdesc st) (nstk st) (ndesc st) (base st).
+
+Definition idle_worker : worker := mkW None None None.
 
 Definition step (st : state) (a : nat * ev) : option state :=
   let (w, e) := a in
   match nth_error (wks st) w with
   | None => None
   | Some k =>
+    if negb (Nat.leb (base st) w) then None else
     match e with
+    | EEpoch n =>
+        Some (mkSt (ths st) (wks st ++ repeat idle_worker n) (fstk st) (fdesc st) (nstk st) (ndesc st)
+                   (length (wks st)))
     | EAllocDesc det =>
         if quiet k && cur_running st w k then
           let '(d, fd', nd') := take Nat.eqb w (fdesc st) (ndesc st) in
           Some (mkSt (ths st ++ [mkT d 0 0 det (PNew w)])
                      (upd (wks st) w (mkW (w_cur k) None (Some (length (ths st)))))
-                     (fstk st) fd' (nstk st) nd')
+                     (fstk st) fd' (nstk st) nd' (base st))
         else None
     | EAllocStack c =>
         match w_new k with
@@ -148,7 +164,7 @@ Definition step (st : state) (a : nat * ev) : option state :=
                   let '(s, fs', ns') := take key2_eqb (w, c) (fstk st) (nstk st) in
                   Some (mkSt (upd (ths st) t (mkT (t_desc th) s c (t_det th) PSaved))
                              (upd (wks st) w (mkW (w_cur k) (w_cb k) None))
-                             fs' (fdesc st) ns' (ndesc st))
+                             fs' (fdesc st) ns' (ndesc st) (base st))
                 else None
             | None => None
             end
@@ -233,7 +249,7 @@ Definition step (st : state) (a : nat * ev) : option state :=
             | Some th =>
                 if phase_eqb (t_ph th) (PAway w) then
                   Some (mkSt (upd (ths st) t (set_ph th (PFreed w))) (wks st)
-                             (((w, t_cls th), t_stack th) :: fstk st) (fdesc st) (nstk st) (ndesc st))
+                             (((w, t_cls th), t_stack th) :: fstk st) (fdesc st) (nstk st) (ndesc st) (base st))
                 else None
             | None => None
             end
@@ -260,7 +276,7 @@ Definition step (st : state) (a : nat * ev) : option state :=
                 if phase_eqb (t_ph th) (PFreed w) && t_det th then
                   Some (mkSt (upd (ths st) t (set_ph th PGone))
                              (upd (wks st) w (mkW (w_cur k) None (w_new k)))
-                             (fstk st) ((w, t_desc th) :: fdesc st) (nstk st) (ndesc st))
+                             (fstk st) ((w, t_desc th) :: fdesc st) (nstk st) (ndesc st) (base st))
                 else None
             | None => None
             end
@@ -280,7 +296,7 @@ Definition step (st : state) (a : nat * ev) : option state :=
         | Some th =>
             if quiet k && cur_running st w k && phase_eqb (t_ph th) PDone then
               Some (mkSt (upd (ths st) t (set_ph th PGone)) (wks st)
-                         (fstk st) ((w, t_desc th) :: fdesc st) (nstk st) (ndesc st))
+                         (fstk st) ((w, t_desc th) :: fdesc st) (nstk st) (ndesc st) (base st))
             else None
         | None => None
         end
@@ -288,7 +304,7 @@ Definition step (st : state) (a : nat * ev) : option state :=
   end.
 
 Definition init_state (nw : nat) : state :=
-  mkSt [] (repeat (mkW None None None) nw) [] [] 0 0.
+  mkSt [] (repeat idle_worker nw) [] [] 0 0 0.
 
 Definition init (st : state) : Prop := exists nw, st = init_state nw.
 
